@@ -94,6 +94,14 @@ def run(ctx):
                    "serde_derive 1.0.229 / serde-indexed 0.1.1 (expansions read from typed HIR)"]
     ctx.assumptions = ["CTAP2 canonical order: lower major type, then shorter encoding, then bytewise", "statement order in a loop-free body is evaluation order"]
     for cfg, F in ctx.facts.items():
+        # "one top-level item with no trailing bytes": what follows the status byte is exactly what cbor_serialize wrote for this
+        # response -- the framing rules of Response::serialize (C17/C02) are a necessary condition of C03
+        from . import c17
+        from .engine import Probe
+        prf = Probe(facts={cfg: F})
+        c17.check(prf, F, cfg, P="C17")
+        ctx.oblige("C03|frame", not prf.failed,
+                   "the response body is not exactly the one item the encoder wrote (stale or trailing bytes, wrong length): %s" % "; ".join("%s: %s" % (k, m[:160]) for k, m in prf.failed[:2]), cfg=cfg)
         n_text = n_idx = n_pairs = 0
         local_types = sorted(a["path"] for a in F.adts.values() if a["local"])
         for path in local_types:
